@@ -9,7 +9,7 @@ def gen(rng, tier):
 
 
 globals().update(acct_prop.make(
-    'C02', components=['trade.future', 'settle.future', 'settle.cash', 'views.position', 'views.account', 'reserve.amount', 'bt.reset'],
+    'C02', coq=['Gen/PosArith.v'], gen_mods=['PosArith'], components=['trade.future', 'settle.future', 'settle.cash', 'views.position', 'views.account', 'reserve.amount', 'bt.reset'],
     clauses=['C02.'], gen=gen,
     rule=('random futures scenarios (by-money and by-volume contracts, both directions, open / close / close-today, order / order_to, expiry inside '
           'the run, both settlement-price modes, margin multipliers, forced liquidation on/off, daily and minute bars); a case is one recorded '
